@@ -96,3 +96,49 @@ M("c10.cbc.decrypt.wrongname", "C10", "lib/Crypto/Cipher/_mode_cbc.py",
 M("c10.ocb.encrypt.final", "C10", OCB,
   '        if plaintext is None:\n            self._next = ["digest"]', '        if plaintext is None:\n            self._next = ["digest", "encrypt"]', "T|_mode_ocb.OcbMode")
 M("c10.twin.tuple", "C10", GCM, 'self._next = ["digest"]\n\n        return self._compute_mac()', 'self._next = ("digest",)\n\n        return self._compute_mac()', twin=True)
+
+# ---------------------------------------------------------------- C04
+DSS = "lib/Crypto/Signature/DSS.py"
+EDD = "lib/Crypto/Signature/eddsa.py"
+PSS = "lib/Crypto/Signature/pss.py"
+P15 = "lib/Crypto/Signature/pkcs1_15.py"
+M("c04.dss.norange", "C04", DSS,
+  '        if not (0 < r_prime < self._order) or not (0 < s_prime < self._order):\n            raise ValueError("The signature is not authentic (d)")\n', '', "G|dss.r")
+M("c04.dss.r.zero", "C04", DSS, "if not (0 < r_prime < self._order)", "if not (0 <= r_prime < self._order)", "G|dss.r")
+M("c04.dss.s.le", "C04", DSS, "not (0 < s_prime < self._order):", "not (0 < s_prime <= self._order):", "G|dss.s")
+M("c04.dss.andor", "C04", DSS, "if not (0 < r_prime < self._order) or not (0 < s_prime < self._order):",
+  "if not ((0 < r_prime < self._order) or (0 < s_prime < self._order)):", "G|dss")
+M("c04.ed448.S.revert", "C04", EDD, "        if s >= self._order:\n            raise ValueError(\"The signature is not authentic (S)\")\n        # Step 2\n        k_hash = SHAKE256",
+  "        if s > self._order:\n            raise ValueError(\"The signature is not authentic (S)\")\n        # Step 2\n        k_hash = SHAKE256", "G|ed448.S")
+M("c04.ed25519.noeq", "C04", EDD, "        point2 = 8 * R + k * 8 * self._key.pointQ\n        if point1 != point2:\n            raise ValueError(\"The signature is not authentic\")\n\n    def _verify_ed448",
+  "        point2 = 8 * R + k * 8 * self._key.pointQ\n\n    def _verify_ed448", "D|eddsa")
+M("c04.dss.strict", "C04", DSS, "decode(signature, strict=True)", "decode(signature, strict=False)", "K|dss.der.strict")
+M("c04.dss.der.count", "C04", DSS, "if len(der_seq) != 2 or", "if len(der_seq) < 2 or", "G|dss.der.count")
+M("c04.pss.bc", "C04", PSS, "    if ord(em[-1:]) != 0xBC:\n        raise ValueError(\"Incorrect signature\")\n", "", "G|pss.decode")
+M("c04.pss.lmask", "C04", PSS, "    if lmask & bord(em[0]):\n        raise ValueError(\"Incorrect signature\")\n", "", "G|pss.decode")
+M("c04.pss.len", "C04", PSS, "        if len(signature) != k:\n            raise ValueError(\"Incorrect signature\")", "        if len(signature) > k:\n            raise ValueError(\"Incorrect signature\")", "G|pss.len")
+M("c04.p15.len", "C04", P15, "        if len(signature) != k:", "        if len(signature) > k:", "G|p115.len")
+M("c04.p15.prefix", "C04", P15, "if em1 not in possible_em1:", "if em1[2:] not in [x[2:] for x in possible_em1]:", "D|pkcs1_15.verify.final", )
+M("c04.ed448.consume", "C04", EDD, "PHM = msg_or_hash.copy().read(64) if ph else msg_or_hash\n\n        # See RFC 8032, section 5.2.6", "PHM = msg_or_hash.read(64) if ph else msg_or_hash\n\n        # See RFC 8032, section 5.2.6", "P5|")
+M("c04.det.random", "C04", DSS, "        mask_v = b'\\x01' * mhash.digest_size", "        mask_v = get_random_bytes(1) * mhash.digest_size", "P8|")
+M("c04.rsa.range", "C04", "lib/Crypto/PublicKey/RSA.py", "if not 0 <= plaintext < self._n:", "if not 0 <= plaintext <= self._n:", "G|rsa.range")
+M("c04.ed.context", "C04", EDD, "elif len(context) > 255:", "elif len(context) > 256:", "G|ed.context")
+M("c04.pss.saltlen.store", "C04", PSS, "        if self._saltLen is None:\n            sLen = msg_hash.digest_size\n        else:\n            sLen = self._saltLen\n\n        if self._mgfunc is None:",
+  "        if self._saltLen is None:\n            self._saltLen = msg_hash.digest_size\n        sLen = self._saltLen\n\n        if self._mgfunc is None:", "P4|")
+M("c04.twin.dss.range", "C04", DSS, "if not (0 < r_prime < self._order) or not (0 < s_prime < self._order):",
+  "if r_prime <= 0 or r_prime >= self._order or s_prime < 1 or s_prime > self._order - 1:", twin=True)
+M("c04.twin.pss.trailer", "C04", PSS, "if ord(em[-1:]) != 0xBC:", "if em[-1:] != b'\\xbc':", twin=True)
+
+# ---------------------------------------------------------------- C13
+ASN1 = "lib/Crypto/Util/asn1.py"
+PBES = "lib/Crypto/IO/_PBES.py"
+M("c13.asn1.0x80.revert", "C13", ASN1, "                    if len(encoded_length) == 0:\n                        raise ValueError(\"Invalid DER: indefinite length is not supported\")\n", "", "X|asn1")
+M("c13.pbes1.nr.revert", "C13", PBES, "enc_private_key_info = DerSequence().decode(data, nr_elements=2)\n        encrypted_algorithm", "enc_private_key_info = DerSequence().decode(data)\n        encrypted_algorithm", "X|")
+M("c13.pbes2.msg.revert", "C13", PBES, '"Unsupported PBES2 cipher " + enc_oid', '"Unsupported PBES2 cipher " + enc_algo', "X2|")
+M("c13.ecc.ssh.revert", "C13", "lib/Crypto/PublicKey/ECC.py", 'raise ValueError("Error parsing SSH key type: " + tostr(parts[0]))', 'raise ValueError("Error parsing SSH key type: " + parts[0])', "X2|")
+M("c13.dsa.ssh.revert", "C13", "lib/Crypto/PublicKey/DSA.py", 'if len(keyparts) >= 5 and keyparts[0] == b"ssh-dss":', 'if keyparts[0] == b"ssh-dss":', "X|DSA.import_key|IndexError")
+M("c13.ecc.cascade.narrow", "C13", "lib/Crypto/PublicKey/ECC.py",
+  "    try:\n        return _import_subjectPublicKeyInfo(encoded, passphrase)\n    except UnsupportedEccFeature as err:\n        raise err\n    except (ValueError, TypeError, IndexError):",
+  "    try:\n        return _import_subjectPublicKeyInfo(encoded, passphrase)\n    except UnsupportedEccFeature as err:\n        raise err\n    except (ValueError, TypeError):", "X|ECC.import_key|IndexError")
+M("c13.pkcs8.raise.keyerror", "C13", "lib/Crypto/IO/PKCS8.py", 'raise ValueError("Not a valid PrivateKeyInfo SEQUENCE")\n    elif pk_info[0] == 1:', 'raise KeyError("Not a valid PrivateKeyInfo SEQUENCE")\n    elif pk_info[0] == 1:', "X|PKCS8.unwrap|KeyError")
+M("c13.twin.asn1.guard", "C13", ASN1, "                    if len(encoded_length) == 0:\n", "                    if not encoded_length:\n", twin=True)
